@@ -342,12 +342,17 @@ def _rv(v):
     return z3.RealVal(repr(float(v))) if float(v) != int(float(v)) or abs(float(v)) > 1e15 else z3.RealVal(int(float(v)))
 
 
+# dependency fact: numpy.ndarray.device is the string "cpu" for NumPy >= 2.0 (array API); cola's own notion of the device of the NumPy backend
+# (xnp.get_device / get_default_device) is None.  Code that reads `.device` off an ARRAY therefore sees this value.
+NP_ARRAY_DEVICE = getattr(np.empty(0), "device", None)
+
+
 class SScal:
     """complex scalar as (re, im); real scalars have im == 0 syntactically"""
     __array_ufunc__ = None
     shape = ()
     ndim = 0
-    device = None
+    device = NP_ARRAY_DEVICE       # the `.device` ATTRIBUTE of an array of the installed NumPy (not cola's xnp.get_device, which is None on this backend)
 
     def __init__(self, re, im=None, dtype=None, integral=None):
         self.re = z3.simplify(re)
@@ -597,7 +602,7 @@ class AMat:
     """ndarray proxy over the ALG domain.  ndim 1 arrays are n x 1 Mats with ndim == 1."""
     __array_ufunc__ = None
     __array_priority__ = 1000
-    device = None
+    device = NP_ARRAY_DEVICE
 
     def __init__(self, term, shape, dtype, fresh=False):
         self.term = term
